@@ -67,7 +67,7 @@ Definition e_wd (w : wd) : list Z :=
 Definition e_oent {A} (e : A -> list Z) (o : oent A) : list Z :=
   match o with OAbsent => [0] | ONone => [1] | OVals l => 2 :: e_list e l end.
 Definition e_err (e : err) : Z :=
-  match e with EValue => 1 | EType => 2 | EIndex => 3 | EUnmodelled => 9 end.
+  match e with EValue => 1 | EType => 2 | EIndex => 3 | EKey => 4 | EAttr => 5 | EOverflow => 6 | EUnmodelled => 9 end.
 
 Definition e_rule (r : rule) : list Z :=
   e_dt (r_dtstart r) ++ [r_freq r; r_interval r; r_wkst r] ++ e_opt e_z (r_count r) ++ e_opt e_dt (r_until r)
@@ -147,6 +147,7 @@ Definition dispatch (n : Z) (args : list Z) : list Z :=
              (fun '(ig, s) => match parse_date ig s with
                               | DOk d => 1 :: e_dt d
                               | DBad => [0; 1]
+                              | DOv => [0; 6]
                               | DUn => [0; 9]
                               end) args
   | 7 => run (ig <- d_bool ;; s <- d_str ;; d_ret (ig, s))
